@@ -416,6 +416,9 @@ class Interp:
             path, _ = self.program.find(sub)
             if path is not None:
                 return self.import_module(sub)
+            if obj.path is None:
+                # a modelled library module (struct, enum, copy, ...): the real module may well have this attribute
+                raise Unsupported(f"{obj.name}.{name} is not modelled")
             self.throw("AttributeError", f"module {obj.name} has no attribute {name}")
         if isinstance(obj, SuperV):
             mro = self.mro(obj.obj.cls if isinstance(obj.obj, Instance) else obj.obj)
@@ -819,6 +822,9 @@ class Interp:
             return self.builtins[name]
         if name == "__class__" and fr.cls is not None:
             return fr.cls
+        import builtins as _py_builtins
+        if hasattr(_py_builtins, name):
+            raise Unsupported(f"builtin {name} is not modelled")
         self.throw("NameError", f"name '{name}' is not defined")
 
     def st_If(self, s, fr):
